@@ -29,7 +29,13 @@ struct SnapRec {
     uint64_t call, ret;
     std::vector<uint32_t> seen;
 };
-using COW = cow_guarded<Cell, vrf::mutex_t>;
+// a payload several cache lines wide (libraries have been known to treat "big" objects differently)
+struct BigCell: Cell {
+    char pad[600] = {};
+    BigCell() = default;
+    explicit BigCell(bool exclusive): Cell(exclusive) {}
+};
+static_assert(sizeof(BigCell) > 512, "BigCell is meant to be big");
 
 // Allocation failure while a write handle is released: the commit allocates (the control block of the published pointer).
 // Release is noexcept, so the unchanged library stops the program (std::terminate) - fail-stop, nothing can observe a lost
@@ -88,6 +94,248 @@ static void allocfault_mode()
 }
 #endif
 
+template<class P>
+static void round_body(long r, long base_live)
+{
+    using COW = cow_guarded<P, vrf::mutex_t>;
+    vrf::Round R(r);
+    auto& rng = R.rng;
+    int nt = static_cast<int>(rng.range(2, 5));
+    std::vector<std::vector<Act>> scripts;
+    uint32_t id = 1;
+    for (int t = 0; t < nt; t++) {
+        std::vector<Act> sc;
+        int n = static_cast<int>(rng.range(1, 4));
+        bool writer = (t == 0) || rng.chance(50);
+        for (int i = 0; i < n; i++) {
+            if (writer && rng.chance(60) && id <= 10) {
+                sc.push_back(Act{rng.chance(75) ? 'W' : 'C', static_cast<int>(rng.below(2)), static_cast<int>(rng.below(4)), 0, id++, rng.chance(12)});
+            } else {
+                sc.push_back(Act{'S', static_cast<int>(rng.below(4)), static_cast<int>(rng.below(4)), static_cast<int>(rng.below(3)), 0});
+            }
+        }
+        scripts.push_back(sc);
+    }
+    std::string pj = std::string("{\"payload\":\"") + (sizeof(P) > 512 ? "BigCell (600 bytes of padding)" : "Cell") + "\",\"threads\":[";
+    for (size_t t = 0; t < scripts.size(); t++) {
+        if (t) pj += ",";
+        pj += vrf::jarr(scripts[t].begin(), scripts[t].end(), [](const Act& a) {
+            return std::string("{\"k\":\"") + a.kind + "\",\"form\":" + std::to_string(a.form) + ",\"hold\":" + std::to_string(a.hold) + ",\"keep\":" + std::to_string(a.keep) + ",\"id\":" + std::to_string(a.id) + (a.during_unwind ? ",\"during_unwind\":1" : "") + "}";
+        });
+    }
+    pj += "]}";
+    R.program(pj);
+    std::unique_ptr<COW> cow(new COW(false));
+    std::vector<WriteRec> writes[vrf::MAXT];
+    std::vector<SnapRec> snaps[vrf::MAXT];
+    std::atomic<uint64_t> kept_across{0};
+    for (size_t t = 0; t < scripts.size(); t++) {
+        R.spawn([&, t] {
+            struct Kept {
+                typename COW::shared_handle sp;
+                std::vector<uint32_t> seen;
+                const Cell* ptr;
+                int left;
+            };
+            std::vector<Kept> kept;
+            auto revalidate = [&](Kept& k, const char* when) {
+                if (k.sp.get() != k.ptr) vrf::violation("oracle:snapshot_pointer_changed", "{}");
+                Win w(*k.sp, false);
+                k.sp->check(when);
+                if (k.sp->log() != k.seen)
+                    vrf::violation("oracle:snapshot_changed_while_held", "{\"when\":\"" + std::string(when) + "\",\"before\":" + vrf::jnums(k.seen) + ",\"now\":" + vrf::jnums(k.sp->log()) + "}");
+            };
+            for (const Act& a : scripts[t]) {
+                if (a.kind == 'S') {
+                    SnapRec s;
+                    s.call = vrf::now();
+                    typename COW::shared_handle sp = a.form == 0 ? cow->lock_shared() :
+                        a.form == 1                      ? cow->try_lock_shared() :
+                        a.form == 2                      ? cow->try_lock_shared_for(std::chrono::microseconds(5)) :
+                                                           cow->try_lock_shared_until(std::chrono::steady_clock::now() + std::chrono::microseconds(5));
+                    if (!sp) vrf::violation("oracle:read_handle_null", "{}");
+                    {
+                        Win w(*sp, false);
+                        sp->check("snapshot");
+                        s.seen = sp->log();
+                        for (int i = 0; i < a.hold; i++) vrf::user_point();
+                        if (sp->log() != s.seen) vrf::violation("oracle:snapshot_changed_while_held", "{\"when\":\"first look\"}");
+                    }
+                    s.ret = vrf::now();
+                    snaps[t].push_back(s);
+                    if (a.keep > 0) kept.push_back(Kept{sp, s.seen, sp.get(), a.keep});
+                } else {
+                    WriteRec w;
+                    w.id = a.id;
+                    w.committed = (a.kind == 'W');
+                    auto cycle = [&] {
+                    w.call = vrf::now();
+                        {
+                            size_t held_before = vrf::held_count();
+                            typename COW::handle h = cow->lock();
+                            if (!h) vrf::violation("oracle:write_handle_null", "{}");
+                            // the working copy is reached in one of the ways a write handle (a std::unique_ptr with a
+                            // committing deleter) offers: its * and ->, get(), or through a reference to the unique_ptr
+                            // it is (what generic code that takes a unique_ptr sees)
+                            auto acc = [&](typename COW::handle& x) -> Cell& {
+                                switch (a.id % 3) {
+                                    case 1: return *x.get();
+                                    case 2: {
+                                        std::unique_ptr<P, typename COW::handle::deleter_type>& base = x;
+                                        return (a.id % 2) ? *base : *base.operator->();
+                                    }
+                                    default: return (a.id % 2) ? *x : *x.operator->();
+                                }
+                            };
+                            {
+                                Cell& c = acc(h);
+                                Win win(c, true);
+                                vrf::tl_vt_label = static_cast<int>(a.id);
+                                c.check("private copy");
+                                w.initial = c.log();
+                                for (int i = 0; i < a.hold; i++) vrf::user_point();
+                                c.append_raw(a.id);
+                            }
+                            auto release = [&](typename COW::handle& hh) {
+                                w.rel_call = vrf::now();
+                                if (a.kind == 'W') {
+                                    acc(hh).frozen = true;  // from now on the object is (about to be) published: nobody may write to it
+                                    hh.reset();
+                                } else {
+                                    hh.cancel();
+                                    if (hh) vrf::violation("oracle:handle_not_null_after_cancel", "{}");
+                                }
+                                // released means released: the writer lock is free now, not when the (empty) handle object dies
+                                if (vrf::held_count() != held_before)
+                                    vrf::violation("oracle:writer_lock_still_held_after_the_write_handle_was_released",
+                                                   std::string("{\"release\":\"") + (a.kind == 'W' ? "reset()" : "cancel()") + "\"}");
+                            };
+                            if (a.form == 1) {
+                                typename COW::handle h2(std::move(h));
+                                if (h) vrf::violation("oracle:moved_from_write_handle_not_null", "{}");
+                                {
+                                    Cell& c2 = acc(h2);
+                                    Win win(c2, true);
+                                    c2.check("moved handle");
+                                }
+                                release(h2);
+                            } else {
+                                release(h);
+                            }
+                        }
+                    };
+                    if (a.during_unwind) {
+                        // releasing a write handle is a commit also when it happens in clean-up code during stack unwinding
+                        try {
+                            RunInDtor<decltype(cycle)&> guard{cycle};
+                            throw HarnessUnwind{};
+                        }
+                        catch (const HarnessUnwind&) {
+                        }
+                    } else cycle();
+                    w.ret = vrf::now();
+                    writes[t].push_back(std::move(w));
+                }
+                for (size_t i = 0; i < kept.size();) {
+                    revalidate(kept[i], "later");
+                    if (--kept[i].left <= 0) {
+                        kept_across.fetch_add(1, std::memory_order_relaxed);
+                        kept.erase(kept.begin() + static_cast<long>(i));
+                    } else i++;
+                }
+            }
+            for (auto& k : kept) revalidate(k, "end of script");
+        });
+    }
+    R.run();
+    if (vrf::global_held_count() != 0) vrf::violation("oracle:lock_leaked_at_quiescence", "{\"held\":" + std::to_string(vrf::global_held_count()) + "}");
+    std::vector<uint32_t> fin;
+    vrf::run_checked(r, [&] {
+        // a writer can still lock (the writer lock was freed by every commit and cancel), and sees the final value
+        typename COW::handle h = cow->lock();
+        h->check("final");
+        fin = h->log();
+        h.cancel();
+        auto s = cow->lock_shared();
+        if (s->log() != fin) vrf::violation("oracle:cancel_changed_the_committed_value", "{}");
+    });
+    std::map<uint32_t, size_t> pos;
+    for (size_t i = 0; i < fin.size(); i++) {
+        if (pos.count(fin[i])) vrf::violation("oracle:update_applied_twice", "{\"final\":" + vrf::jnums(fin) + "}");
+        pos[fin[i]] = i;
+    }
+    std::vector<const WriteRec*> allw;
+    size_t commits = 0;
+    for (auto& v : writes)
+        for (auto& w : v) {
+            allw.push_back(&w);
+            if (w.committed) {
+                commits++;
+                if (!pos.count(w.id)) vrf::violation("oracle:lost_update", "{\"missing\":" + std::to_string(w.id) + ",\"final\":" + vrf::jnums(fin) + "}");
+                // the private copy started from the latest committed value
+                size_t p = pos[w.id];
+                if (w.initial.size() != p || !std::equal(w.initial.begin(), w.initial.end(), fin.begin()))
+                    vrf::violation("oracle:write_handle_did_not_start_from_latest_commit", "{\"id\":" + std::to_string(w.id) + ",\"initial\":" + vrf::jnums(w.initial) + ",\"final\":" + vrf::jnums(fin) + "}");
+            } else {
+                if (pos.count(w.id)) vrf::violation("oracle:cancelled_write_was_published", "{\"id\":" + std::to_string(w.id) + "}");
+                if (w.initial.size() > fin.size() || !std::equal(w.initial.begin(), w.initial.end(), fin.begin()))
+                    vrf::violation("oracle:write_handle_did_not_start_from_latest_commit", "{\"cancelled_id\":" + std::to_string(w.id) + "}");
+            }
+        }
+    if (commits != fin.size()) vrf::violation("oracle:final_value_has_unknown_entries", "{\"final\":" + vrf::jnums(fin) + "}");
+    uint64_t nsnaps = 0, overl = 0;
+    for (int t = 0; t < vrf::MAXT; t++) {
+        size_t prev = 0;
+        for (auto& s : snaps[t]) {
+            nsnaps++;
+            if (s.seen.size() > fin.size() || !std::equal(s.seen.begin(), s.seen.end(), fin.begin()))
+                vrf::violation("oracle:read_value_not_a_prefix_of_final", "{\"seen\":" + vrf::jnums(s.seen) + ",\"final\":" + vrf::jnums(fin) + "}");
+            if (s.seen.size() < prev) vrf::violation("oracle:reader_went_backwards", "{}");
+            prev = s.seen.size();
+            if (vrf::clock_is_sync()) {
+                for (auto* w : allw) {
+                    if (!w->committed) continue;
+                    bool in = std::find(s.seen.begin(), s.seen.end(), w->id) != s.seen.end();
+                    if (w->ret < s.call && !in) vrf::violation("oracle:stale_read", "{\"missing_id\":" + std::to_string(w->id) + ",\"seen\":" + vrf::jnums(s.seen) + "}");
+                    if (in && w->rel_call > s.ret) vrf::violation("oracle:read_from_the_future", "{\"id\":" + std::to_string(w->id) + "}");
+                    if (w->call < s.ret && s.call < w->ret) overl++;
+                }
+            }
+        }
+    }
+    vrf::run_checked(r, [&] { cow.reset(); });
+    if (vrf::g_cell_live.load() != base_live)
+        vrf::violation("oracle:objects_leaked_or_destroyed_twice", "{\"live\":" + std::to_string(vrf::g_cell_live.load() - base_live) + "}");
+    uint64_t sig = R.sched_sig;
+    for (auto v : fin) sig = vrf::mixhash(sig, v);
+    for (auto& v : snaps)
+        for (auto& s : v) sig = vrf::mixhash(sig, s.seen.size() + 50);
+    for (auto& sc : scripts) sig = vrf::mixhash(sig, sc.size() * 13 + 1);
+    vrf::note(sig, overl > 0 || kept_across.load() > 0);
+    vrf::count("commits", commits);
+    vrf::count("cancels", allw.size() - commits);
+    vrf::count("snapshots", nsnaps);
+    vrf::count("snapshots_kept_across_later_actions", kept_across.load());
+    vrf::count("snapshot_write_pairs_overlapping_in_time", overl);
+    if (r % 4000 == 0) {
+        std::string obs = "{\"final_log\":" + vrf::jnums(fin) + ",\"snapshots\":[";
+        bool first = true;
+        for (auto& v : snaps)
+            for (auto& sn : v) {
+                obs += std::string(first ? "" : ",") + "{\"call\":" + std::to_string(sn.call) + ",\"ret\":" + std::to_string(sn.ret) + ",\"log\":" + vrf::jnums(sn.seen) + "}";
+                first = false;
+            }
+        obs += "],\"writes\":[";
+        first = true;
+        for (auto* w : allw) {
+            obs += std::string(first ? "" : ",") + "{\"id\":" + std::to_string(w->id) + ",\"committed\":" + (w->committed ? "1" : "0") + ",\"started_from\":" + vrf::jnums(w->initial) + "}";
+            first = false;
+        }
+        obs += "]}";
+        vrf::sample("{\"program\":" + pj + ",\"observed\":" + obs + "}");
+    }
+}
+
 int main(int argc, char** argv)
 {
     vrf::init(argc, argv, "C04");
@@ -100,242 +348,8 @@ int main(int argc, char** argv)
     long base_live = vrf::g_cell_live.load();
     for (long r = 0; r < vrf::cfg.rounds; r++) {
         if (!vrf::want_round(r)) continue;
-        vrf::Round R(r);
-        auto& rng = R.rng;
-        int nt = static_cast<int>(rng.range(2, 5));
-        std::vector<std::vector<Act>> scripts;
-        uint32_t id = 1;
-        for (int t = 0; t < nt; t++) {
-            std::vector<Act> sc;
-            int n = static_cast<int>(rng.range(1, 4));
-            bool writer = (t == 0) || rng.chance(50);
-            for (int i = 0; i < n; i++) {
-                if (writer && rng.chance(60) && id <= 10) {
-                    sc.push_back(Act{rng.chance(75) ? 'W' : 'C', static_cast<int>(rng.below(2)), static_cast<int>(rng.below(4)), 0, id++, rng.chance(12)});
-                } else {
-                    sc.push_back(Act{'S', static_cast<int>(rng.below(4)), static_cast<int>(rng.below(4)), static_cast<int>(rng.below(3)), 0});
-                }
-            }
-            scripts.push_back(sc);
-        }
-        std::string pj = "{\"threads\":[";
-        for (size_t t = 0; t < scripts.size(); t++) {
-            if (t) pj += ",";
-            pj += vrf::jarr(scripts[t].begin(), scripts[t].end(), [](const Act& a) {
-                return std::string("{\"k\":\"") + a.kind + "\",\"form\":" + std::to_string(a.form) + ",\"hold\":" + std::to_string(a.hold) + ",\"keep\":" + std::to_string(a.keep) + ",\"id\":" + std::to_string(a.id) + (a.during_unwind ? ",\"during_unwind\":1" : "") + "}";
-            });
-        }
-        pj += "]}";
-        R.program(pj);
-        std::unique_ptr<COW> cow(new COW(false));
-        std::vector<WriteRec> writes[vrf::MAXT];
-        std::vector<SnapRec> snaps[vrf::MAXT];
-        std::atomic<uint64_t> kept_across{0};
-        for (size_t t = 0; t < scripts.size(); t++) {
-            R.spawn([&, t] {
-                struct Kept {
-                    COW::shared_handle sp;
-                    std::vector<uint32_t> seen;
-                    const Cell* ptr;
-                    int left;
-                };
-                std::vector<Kept> kept;
-                auto revalidate = [&](Kept& k, const char* when) {
-                    if (k.sp.get() != k.ptr) vrf::violation("oracle:snapshot_pointer_changed", "{}");
-                    Win w(*k.sp, false);
-                    k.sp->check(when);
-                    if (k.sp->log() != k.seen)
-                        vrf::violation("oracle:snapshot_changed_while_held", "{\"when\":\"" + std::string(when) + "\",\"before\":" + vrf::jnums(k.seen) + ",\"now\":" + vrf::jnums(k.sp->log()) + "}");
-                };
-                for (const Act& a : scripts[t]) {
-                    if (a.kind == 'S') {
-                        SnapRec s;
-                        s.call = vrf::now();
-                        COW::shared_handle sp = a.form == 0 ? cow->lock_shared() :
-                            a.form == 1                      ? cow->try_lock_shared() :
-                            a.form == 2                      ? cow->try_lock_shared_for(std::chrono::microseconds(5)) :
-                                                               cow->try_lock_shared_until(std::chrono::steady_clock::now() + std::chrono::microseconds(5));
-                        if (!sp) vrf::violation("oracle:read_handle_null", "{}");
-                        {
-                            Win w(*sp, false);
-                            sp->check("snapshot");
-                            s.seen = sp->log();
-                            for (int i = 0; i < a.hold; i++) vrf::user_point();
-                            if (sp->log() != s.seen) vrf::violation("oracle:snapshot_changed_while_held", "{\"when\":\"first look\"}");
-                        }
-                        s.ret = vrf::now();
-                        snaps[t].push_back(s);
-                        if (a.keep > 0) kept.push_back(Kept{sp, s.seen, sp.get(), a.keep});
-                    } else {
-                        WriteRec w;
-                        w.id = a.id;
-                        w.committed = (a.kind == 'W');
-                        auto cycle = [&] {
-                        w.call = vrf::now();
-                            {
-                                size_t held_before = vrf::held_count();
-                                COW::handle h = cow->lock();
-                                if (!h) vrf::violation("oracle:write_handle_null", "{}");
-                                // the working copy is reached in one of the ways a write handle (a std::unique_ptr with a
-                                // committing deleter) offers: its * and ->, get(), or through a reference to the unique_ptr
-                                // it is (what generic code that takes a unique_ptr sees)
-                                auto acc = [&](COW::handle& x) -> Cell& {
-                                    switch (a.id % 3) {
-                                        case 1: return *x.get();
-                                        case 2: {
-                                            std::unique_ptr<Cell, typename COW::handle::deleter_type>& base = x;
-                                            return (a.id % 2) ? *base : *base.operator->();
-                                        }
-                                        default: return (a.id % 2) ? *x : *x.operator->();
-                                    }
-                                };
-                                {
-                                    Cell& c = acc(h);
-                                    Win win(c, true);
-                                    vrf::tl_vt_label = static_cast<int>(a.id);
-                                    c.check("private copy");
-                                    w.initial = c.log();
-                                    for (int i = 0; i < a.hold; i++) vrf::user_point();
-                                    c.append_raw(a.id);
-                                }
-                                auto release = [&](COW::handle& hh) {
-                                    w.rel_call = vrf::now();
-                                    if (a.kind == 'W') {
-                                        acc(hh).frozen = true;  // from now on the object is (about to be) published: nobody may write to it
-                                        hh.reset();
-                                    } else {
-                                        hh.cancel();
-                                        if (hh) vrf::violation("oracle:handle_not_null_after_cancel", "{}");
-                                    }
-                                    // released means released: the writer lock is free now, not when the (empty) handle object dies
-                                    if (vrf::held_count() != held_before)
-                                        vrf::violation("oracle:writer_lock_still_held_after_the_write_handle_was_released",
-                                                       std::string("{\"release\":\"") + (a.kind == 'W' ? "reset()" : "cancel()") + "\"}");
-                                };
-                                if (a.form == 1) {
-                                    COW::handle h2(std::move(h));
-                                    if (h) vrf::violation("oracle:moved_from_write_handle_not_null", "{}");
-                                    {
-                                        Cell& c2 = acc(h2);
-                                        Win win(c2, true);
-                                        c2.check("moved handle");
-                                    }
-                                    release(h2);
-                                } else {
-                                    release(h);
-                                }
-                            }
-                        };
-                        if (a.during_unwind) {
-                            // releasing a write handle is a commit also when it happens in clean-up code during stack unwinding
-                            try {
-                                RunInDtor<decltype(cycle)&> guard{cycle};
-                                throw HarnessUnwind{};
-                            }
-                            catch (const HarnessUnwind&) {
-                            }
-                        } else cycle();
-                        w.ret = vrf::now();
-                        writes[t].push_back(std::move(w));
-                    }
-                    for (size_t i = 0; i < kept.size();) {
-                        revalidate(kept[i], "later");
-                        if (--kept[i].left <= 0) {
-                            kept_across.fetch_add(1, std::memory_order_relaxed);
-                            kept.erase(kept.begin() + static_cast<long>(i));
-                        } else i++;
-                    }
-                }
-                for (auto& k : kept) revalidate(k, "end of script");
-            });
-        }
-        R.run();
-        if (vrf::global_held_count() != 0) vrf::violation("oracle:lock_leaked_at_quiescence", "{\"held\":" + std::to_string(vrf::global_held_count()) + "}");
-        std::vector<uint32_t> fin;
-        vrf::run_checked(r, [&] {
-            // a writer can still lock (the writer lock was freed by every commit and cancel), and sees the final value
-            COW::handle h = cow->lock();
-            h->check("final");
-            fin = h->log();
-            h.cancel();
-            auto s = cow->lock_shared();
-            if (s->log() != fin) vrf::violation("oracle:cancel_changed_the_committed_value", "{}");
-        });
-        std::map<uint32_t, size_t> pos;
-        for (size_t i = 0; i < fin.size(); i++) {
-            if (pos.count(fin[i])) vrf::violation("oracle:update_applied_twice", "{\"final\":" + vrf::jnums(fin) + "}");
-            pos[fin[i]] = i;
-        }
-        std::vector<const WriteRec*> allw;
-        size_t commits = 0;
-        for (auto& v : writes)
-            for (auto& w : v) {
-                allw.push_back(&w);
-                if (w.committed) {
-                    commits++;
-                    if (!pos.count(w.id)) vrf::violation("oracle:lost_update", "{\"missing\":" + std::to_string(w.id) + ",\"final\":" + vrf::jnums(fin) + "}");
-                    // the private copy started from the latest committed value
-                    size_t p = pos[w.id];
-                    if (w.initial.size() != p || !std::equal(w.initial.begin(), w.initial.end(), fin.begin()))
-                        vrf::violation("oracle:write_handle_did_not_start_from_latest_commit", "{\"id\":" + std::to_string(w.id) + ",\"initial\":" + vrf::jnums(w.initial) + ",\"final\":" + vrf::jnums(fin) + "}");
-                } else {
-                    if (pos.count(w.id)) vrf::violation("oracle:cancelled_write_was_published", "{\"id\":" + std::to_string(w.id) + "}");
-                    if (w.initial.size() > fin.size() || !std::equal(w.initial.begin(), w.initial.end(), fin.begin()))
-                        vrf::violation("oracle:write_handle_did_not_start_from_latest_commit", "{\"cancelled_id\":" + std::to_string(w.id) + "}");
-                }
-            }
-        if (commits != fin.size()) vrf::violation("oracle:final_value_has_unknown_entries", "{\"final\":" + vrf::jnums(fin) + "}");
-        uint64_t nsnaps = 0, overl = 0;
-        for (int t = 0; t < vrf::MAXT; t++) {
-            size_t prev = 0;
-            for (auto& s : snaps[t]) {
-                nsnaps++;
-                if (s.seen.size() > fin.size() || !std::equal(s.seen.begin(), s.seen.end(), fin.begin()))
-                    vrf::violation("oracle:read_value_not_a_prefix_of_final", "{\"seen\":" + vrf::jnums(s.seen) + ",\"final\":" + vrf::jnums(fin) + "}");
-                if (s.seen.size() < prev) vrf::violation("oracle:reader_went_backwards", "{}");
-                prev = s.seen.size();
-                if (vrf::clock_is_sync()) {
-                    for (auto* w : allw) {
-                        if (!w->committed) continue;
-                        bool in = std::find(s.seen.begin(), s.seen.end(), w->id) != s.seen.end();
-                        if (w->ret < s.call && !in) vrf::violation("oracle:stale_read", "{\"missing_id\":" + std::to_string(w->id) + ",\"seen\":" + vrf::jnums(s.seen) + "}");
-                        if (in && w->rel_call > s.ret) vrf::violation("oracle:read_from_the_future", "{\"id\":" + std::to_string(w->id) + "}");
-                        if (w->call < s.ret && s.call < w->ret) overl++;
-                    }
-                }
-            }
-        }
-        vrf::run_checked(r, [&] { cow.reset(); });
-        if (vrf::g_cell_live.load() != base_live)
-            vrf::violation("oracle:objects_leaked_or_destroyed_twice", "{\"live\":" + std::to_string(vrf::g_cell_live.load() - base_live) + "}");
-        uint64_t sig = R.sched_sig;
-        for (auto v : fin) sig = vrf::mixhash(sig, v);
-        for (auto& v : snaps)
-            for (auto& s : v) sig = vrf::mixhash(sig, s.seen.size() + 50);
-        for (auto& sc : scripts) sig = vrf::mixhash(sig, sc.size() * 13 + 1);
-        vrf::note(sig, overl > 0 || kept_across.load() > 0);
-        vrf::count("commits", commits);
-        vrf::count("cancels", allw.size() - commits);
-        vrf::count("snapshots", nsnaps);
-        vrf::count("snapshots_kept_across_later_actions", kept_across.load());
-        vrf::count("snapshot_write_pairs_overlapping_in_time", overl);
-        if (r % 4000 == 0) {
-            std::string obs = "{\"final_log\":" + vrf::jnums(fin) + ",\"snapshots\":[";
-            bool first = true;
-            for (auto& v : snaps)
-                for (auto& sn : v) {
-                    obs += std::string(first ? "" : ",") + "{\"call\":" + std::to_string(sn.call) + ",\"ret\":" + std::to_string(sn.ret) + ",\"log\":" + vrf::jnums(sn.seen) + "}";
-                    first = false;
-                }
-            obs += "],\"writes\":[";
-            first = true;
-            for (auto* w : allw) {
-                obs += std::string(first ? "" : ",") + "{\"id\":" + std::to_string(w->id) + ",\"committed\":" + (w->committed ? "1" : "0") + ",\"started_from\":" + vrf::jnums(w->initial) + "}";
-                first = false;
-            }
-            obs += "]}";
-            vrf::sample("{\"program\":" + pj + ",\"observed\":" + obs + "}");
-        }
+        if (r % 5 == 4) round_body<BigCell>(r, base_live);
+        else round_body<Cell>(r, base_live);
     }
     vrf::finish();
 }
